@@ -269,8 +269,9 @@ class Parser(object):
             if 'multiplier' in unit_element:
                 expr = '(%s * %s)' % (unit_element['multiplier'], expr)
 
-            if 'offset' in unit_element and (not unit_element['offset'].strip().isnumeric() or
-                                             int(unit_element['offset']) != 0):
+            # Only a zero offset is supported, in any spelling ('0', '0.0', '+0', ...); text that is not a number
+            # makes float() raise a ValueError as well
+            if 'offset' in unit_element and float(unit_element['offset']) != 0:
                 raise ValueError('Offsets in units are not supported!')
 
             # Collect/add this particular <unit> definition
